@@ -1156,3 +1156,122 @@ def r_lookupkey(E):
     res.samples = [{"embedded_positive_examples_recognised": 2, "embedded_twins_silent": True}]
     res.floor = 50
     return res
+
+
+# ---------------------------------------------------------------------------------------------- R-ALIASREBIND
+_AR_POSITIVE = '''
+class Update:
+    def __init__(self):
+        self.todo = []
+        self.done = []
+        self.stages = ((self.todo, self.done),)
+        self.run()
+    def run(self):
+        self.done = results = []
+        for x in self.todo:
+            results.append(x)
+'''
+_AR_NEGATIVE = '''
+class Update:
+    def __init__(self):
+        self.todo = []
+        self.done = []
+        self.stages = ((self.todo, self.done),)
+        self.run()
+    def run(self):
+        results = self.done
+        results.clear()
+        self.todo[:] = [1, 2]
+        for x in self.todo:
+            results.append(x)
+class Other:
+    def __init__(self, a):
+        self.a = a
+        self.pair = (self.a, 1)
+    def reset(self):
+        self.a = None
+        self.pair = (self.a, 1)
+'''
+
+
+def rebound_after_aliasing(tree):
+    """[(class, composite attribute, held attribute, rebinding statement)]: `self.C = (… self.X …)` built once in the
+    constructor from a *mutable list* attribute X (X is bound to a list literal / list() before), and `self.X = …` bound
+    again — elsewhere in the class, or later in the constructor: C keeps the old list, whoever reads the lists through C
+    sees none of what is put into the new one"""
+    from ..astutil import source_order
+    out = []
+    for cls in [n for n in ast.walk(tree) if isinstance(n, ast.ClassDef)]:
+        init = next((f for f in cls.body if isinstance(f, ast.FunctionDef) and f.name == "__init__"), None)
+        if init is None:
+            continue
+        rank = source_order(cls)
+        comps = []
+        for n in ast.walk(init):
+            if isinstance(n, ast.Assign) and len(n.targets) == 1 and isinstance(n.targets[0], ast.Attribute) \
+                    and norm(n.targets[0].value) == "self" and isinstance(n.value, (ast.Tuple, ast.List, ast.Dict)):
+                held = set()
+
+                def collect(e):
+                    # direct elements of nested literals only: `[c[0] for c in self.L]` reads L, it does not hold it
+                    if isinstance(e, (ast.Tuple, ast.List)):
+                        for x in e.elts:
+                            collect(x)
+                    elif isinstance(e, ast.Dict):
+                        for x in e.values:
+                            collect(x)
+                    elif isinstance(e, ast.Attribute) and isinstance(e.value, ast.Name) and e.value.id == "self":
+                        held.add(e.attr)
+                collect(n.value)
+                if held:
+                    comps.append((n, held))
+        if not comps:
+            continue
+        assigns = {}
+        for f in [x for x in cls.body if isinstance(x, ast.FunctionDef)]:
+            for a in ast.walk(f):
+                if isinstance(a, ast.Assign):
+                    for t in a.targets:
+                        if isinstance(t, ast.Attribute) and isinstance(t.value, ast.Name) and t.value.id == "self":
+                            assigns.setdefault(t.attr, []).append((a, f))
+        for comp, held in comps:
+            cname = comp.targets[0].attr
+            if len(assigns.get(cname, [])) != 1:
+                continue          # the composite itself is rebuilt: it follows its parts
+            for x in sorted(held):
+                binds = assigns.get(x, [])
+                is_list = any(isinstance(a.value, (ast.List, ast.ListComp)) or (
+                    isinstance(a.value, ast.Call) and norm(a.value.func) == "list") for a, _ in binds)
+                if not is_list:
+                    continue
+                for a, f in binds:
+                    if f is init and rank[id(a)] < rank[id(comp)]:
+                        continue
+                    out.append((cls, cname, x, a, f))
+    return out
+
+
+@rule("R-ALIASREBIND")
+def r_aliasrebind(E):
+    pm = E.pm
+    res = RuleResult("R-ALIASREBIND", "a list attribute that the constructor has put into another attribute (a tuple of "
+                                      "stages, a table of lists) is only ever changed in place afterwards: binding the "
+                                      "attribute to a new list leaves the holder with the old one — whoever walks the "
+                                      "holder (the undo of a failed update) no longer sees what is put into the new list")
+    for mod, (rel, tree, src) in sorted(pm.modules.items()):
+        res.instances += len([n for n in ast.walk(tree) if isinstance(n, ast.ClassDef)])
+        for cls, cname, x, a, f in rebound_after_aliasing(tree):
+            res.findings.append(Finding(
+                "R-ALIASREBIND", f"{rel}:{cls.name}.{f.name} :: self.{x} held by self.{cname}",
+                f"{cls.name}.{f.name} binds self.{x} to a new object (`{norm(a)[:60]}`) although the constructor stored the "
+                f"previous list in self.{cname}: self.{cname} keeps the old (empty) list, so what is appended to the new one "
+                f"is invisible to everything that reads the lists through self.{cname}", rel, a.lineno,
+                f"{cls.name}.{f.name}", {"clauses": _area(rel)}))
+    pos = rebound_after_aliasing(set_parents(ast.parse(_AR_POSITIVE)))
+    neg = rebound_after_aliasing(set_parents(ast.parse(_AR_NEGATIVE)))
+    if len(pos) != 1 or neg:
+        raise AnalysisError(f"R-ALIASREBIND: embedded examples: {len(pos)} of 1 positive recognised, {len(neg)} false reports")
+    res.instances += 1
+    res.samples = [{"embedded_positive_examples_recognised": 1, "embedded_twins_silent": True}]
+    res.floor = 30
+    return res
